@@ -921,6 +921,12 @@ class Engine:
             except z3.Z3Exception as e:     # harness/engine misuse of a term, not library behaviour
                 self.unsupported.append(f"Z3Exception: {e!r}"[:160])
             except Exception as e:  # unexpected exception escaping the library = candidate violation
+                from .concrete import raised_by_harness
+                if raised_by_harness(e):      # renamed private member: harness / tree mismatch, inconclusive
+                    self.unsupported.append(f"harness relies on a private member this tree does not have: {e!r}"[:160])
+                    self.n_decisions += len(self.decisions)
+                    self.unpatch_all()
+                    continue
                 label = f"no-unexpected-exception:{type(e).__name__}"
                 self.reach(label)
                 r = self._check()
